@@ -39,9 +39,15 @@ namespace pika::threads::detail {
         // make sure that the thread has not been suspended and set active again
         // in the meantime
         thread_state current_state = get_thread_id_data(thrd)->get_state();
+        PIKA_VERIF_POINT("sas.enter", get_thread_id_data(thrd),
+            (static_cast<std::uint64_t>(current_state.state()) << 32) |
+                static_cast<std::uint32_t>(current_state.tag()),
+            (static_cast<std::uint64_t>(previous_state.state()) << 32) |
+                static_cast<std::uint32_t>(previous_state.tag()));
 
         if (current_state.state() == previous_state.state() && current_state != previous_state)
         {
+            PIKA_VERIF_POINT("sas.abort", get_thread_id_data(thrd), 0, 0);
             // NOLINTNEXTLINE(bugprone-branch-clone)
             PIKA_LOG(info,
                 "set_active_state: thread is still active, however it was non-active since the "
@@ -87,6 +93,8 @@ namespace pika::threads::detail {
             // action depends on the current state
             previous_state = get_thread_id_data(thrd)->get_state();
             thread_schedule_state previous_state_val = previous_state.state();
+            PIKA_VERIF_POINT("sts.load", get_thread_id_data(thrd),
+                static_cast<int>(previous_state_val), previous_state.tag());
 
             // nothing to do here if the state doesn't change
             if (new_state == previous_state_val)
@@ -125,6 +133,7 @@ namespace pika::threads::detail {
                         "set state for active thread", priority, execution::thread_schedule_hint{},
                         execution::thread_stacksize::nostack);
 
+                    PIKA_VERIF_POINT("sts.helper", get_thread_id_data(thrd), 0, previous_state.tag());
                     create_work(get_thread_id_data(thrd)->get_scheduler_base(), data, ec);
 
                     if (&ec != &throws) ec = make_success_code();
@@ -211,8 +220,10 @@ namespace pika::threads::detail {
             // So all what we do here is to set the new state.
             if (get_thread_id_data(thrd)->restore_state(new_state, new_state_ex, previous_state))
             {
+                PIKA_VERIF_POINT("sts.cas", get_thread_id_data(thrd), 1, previous_state.tag());
                 break;
             }
+            PIKA_VERIF_POINT("sts.cas", get_thread_id_data(thrd), 0, previous_state.tag());
 
             // state has changed since we fetched it from the thread, retry
             // NOLINTNEXTLINE(bugprone-branch-clone)
@@ -234,6 +245,7 @@ namespace pika::threads::detail {
 
             auto* thrd_data = get_thread_id_data(thrd);
             auto* scheduler = thrd_data->get_scheduler_base();
+            PIKA_VERIF_POINT("sts.sched", thrd_data, 0, 0);
             scheduler->schedule_thread(thrd, schedulehint, false, thrd_data->get_priority());
             // NOTE: Don't care if the hint is a NUMA hint, just want to wake up
             // a thread.
